@@ -78,9 +78,15 @@ char *strchr(const char *s, int c)
 		if (!s[i]) return NULL;
 	}
 }
+#ifdef CFGV_DUP_FAIL_GHOST
+_Bool cfgv_dup_fail;    /* ghost: the next strdup/strndup fails (units that run with --no-malloc-may-fail) */
+#endif
 char *strdup(const char *s)
 {
 	size_t n = strlen(s), i;
+#ifdef CFGV_DUP_FAIL_GHOST
+	if (cfgv_dup_fail) return NULL;
+#endif
 #ifdef CFGV_FIXED_DUP
 	char *r = malloc(CFGV_FIXED_DUP);
 	__CPROVER_assert(n + 1 <= CFGV_FIXED_DUP, "BOUND: strdup source fits the fixed result buffer");
